@@ -51,3 +51,14 @@ Theorem C19_dilute_instruction : forall cf c solute t solvent c', wf_subst solve
   snd a = BL /\ denotes3 a == conv_stored cf solvent (get solvent (cont c') - get solvent (cont c)) (P0, BL).
 Proof. exact dilute_instr_true. Qed.
 Print Assumptions C19_dilute_instruction.
+
+(* create_solution with a container as the solvent: "... to V unit of <container>" states the volume that container loses *)
+Require Import Solve InstrSol.
+Theorem C19_create_solution_container_instruction : forall cf name solutes k m k' c, Inv cf k ->
+  create_solution_c cf name solutes k m = Ok (k', c) ->
+  exists fs xs, fake_solvent cf k = Ok fs /\ solve_solution solutes fs m = Ok xs /\
+    let a := solution_c_instr cf fs xs in
+    ~ solvent_volume fs (last xs 0) (P0, BMol) == 0 ->
+    snd a = BL /\ denotes3 a == total_in cf (cont k) (P0, BL) - total_in cf (cont k') (P0, BL).
+Proof. exact solution_c_instr_true. Qed.
+Print Assumptions C19_create_solution_container_instruction.
